@@ -668,6 +668,13 @@ impl Stdfs {
                     )?;
                 }
 
+                // Copying a file onto a link that points back at it would truncate it first
+                if let (Ok(x), Ok(y)) = (fs::canonicalize(src.path()), fs::canonicalize(&dst_path)) {
+                    if x == y {
+                        continue;
+                    }
+                }
+
                 // Copy over the file/link
                 fs::copy(src.path(), &dst_path)?;
 
